@@ -35,6 +35,22 @@ def check(ctx):
                    f"registry {reg} is not a class attribute of DiameterRequest: it is not shared by all requests of the process",
                    key=f"classattr:{reg}", nontrivial=False)
 
+    ctx.clause = "2-who-may-draw"
+    for f, reg in REGS.items():
+        v = rq.attrs.get(reg)
+        if v is None:
+            continue
+        txt = ast.unparse(v)
+        if txt in ("list()", "[]", "set()"):
+            ctx.hold("R-TABLE/registry-unbounded", f"{rq.qual}.{reg}", rq.where(v), f"registry is an unbounded {txt}", key=f"unbounded:{reg}")
+        elif "deque" in txt and "maxlen" in txt or "OrderedDict" in txt or "lru" in txt.lower():
+            ctx.violate("R-TABLE/registry-unbounded", f"{rq.qual}.{reg}", rq.where(v),
+                        f"registry is `{txt}`: a bounded container forgets the oldest identifiers, so a later draw that repeats one "
+                        f"of them passes the membership test and the identifier is reused within the process", key=f"unbounded:{reg}")
+        else:
+            ctx.undecided("R-TABLE/registry-unbounded", f"{rq.qual}.{reg}", rq.where(v), f"registry container `{txt}` not recognised",
+                          key=f"unbounded:{reg}")
+
     ctx.clause = "1-test-and-insert"
     for f, fn in draw.items():
         reg = REGS[f]
